@@ -239,7 +239,14 @@ def close(a, b, dtype):
         return True, 0.0
     a64, b64 = a.double(), b.double()
     if not bool(torch.isfinite(a64).all()) or not bool(torch.isfinite(b64).all()):
-        return bool(torch.equal(torch.isnan(a64), torch.isnan(b64))), float('nan')
+        # non-finite entries must coincide exactly (NaN with NaN, +-inf with the same infinity); the finite ones are compared as usual
+        fin = torch.isfinite(a64) & torch.isfinite(b64)
+        same = bool(torch.equal(torch.isnan(a64), torch.isnan(b64))) and bool(torch.equal(torch.isfinite(a64), torch.isfinite(b64))) \
+            and bool((a64[torch.isinf(a64)] == b64[torch.isinf(a64)]).all())
+        if same and bool(fin.any()):
+            d = float((a64[fin] - b64[fin]).abs().max())
+            same = d <= tol_for(dtype) * (1.0 + float(b64[fin].abs().max()))
+        return same, float('nan')
     d = float((a64 - b64).abs().max())
     return d <= tol_for(dtype) * (1.0 + float(b64.abs().max())), d
 
